@@ -16,9 +16,9 @@ TECH = {
  "C09": ("systematic planting of a shared 7-gram at every offset pair + PBT against naive search", "6/C09"),
  "C10": ("algebraic-law PBT (range, symmetry, reflexivity, far=0, score>0 <=> equal or candidate) with window sets recomputed from first principles", "6/C10"),
  "C11": ("stateful PBT over an object pool with out-of-contract constructor arguments and arbitrary-bytes objects; validity predicate re-implemented; both assertion profiles", "6/C11"),
- "C12": ("model-based stateful PBT: executable model of the declare/update/finalize/reset contract + lock-step differential against a fresh generator", "6/C12"),
+ "C12": ("model-based stateful PBT: executable model of the declare/update/finalize/reset contract + lock-step differential against a fresh generator; stateful libFuzzer target (fz_history: call history decoded from bytes, model inside) in the thorough tier", "6/C12"),
  "C13": ("PBT on top of the cfg(a4lg_ffuzzy_verif) zero-prefix hook against reference models with a closed-form prefix; hook validated against real feeding", "6/C13"),
- "C14": ("differential PBT across 7 feature sets x 2 assertion profiles: byte-compared transcripts of a seeded corpus; checked-vs-unchecked twins; strict-parser relation", "6/C14"),
+ "C14": ("differential PBT across 7 feature sets x 2 assertion profiles: byte-compared transcripts of a seeded corpus; checked-vs-unchecked twins; strict-parser relation; thorough tier: Miri on the unsafe probes and libFuzzer+ASan campaigns (oracles inside) against the unsafe/unchecked build", "6/C14"),
  "C15": ("stateful PBT over the conversion graph with an abstract value model, fresh and dirty destinations", "6/C15"),
  "C16": ("PBT over families of close hashes against a reference order / text equality / fixed hashers; sort differential", "6/C16"),
  "C17": ("stateful PBT: re-initialisation histories vs a fresh target; bit-level reference of the position array", "6/C17"),
